@@ -71,7 +71,12 @@ def matrix (vals : List Val) (f : Val → Val → J) : J :=
 def handle (j : J) : J :=
   match (j.getArr? "quals").bind (·.mapM J.asStr?), (j.getArr? "vals").bind (·.mapM valOfJ) with
   | some quals, some vals =>
-    let env : Env := { rankOf := Gen.rankOf, qual := fun c => strOfJ (quals.getD c "?") }
+    -- the order key of class c (fix F286): its __qualname__, NUL, the decimal id of the class
+    let ids := ((j.getArr? "ids").bind (·.mapM J.asStr?)).getD []
+    let dyn := ((j.getArr? "dyn").getD []).map fun d => match d with | .int i => i != 0 | .bool b => b | _ => false
+    let env : Env := { rankOf := Gen.rankOf,
+                       qual := fun c => strOfJ (quals.getD c "?") ++ [0] ++ strOfJ (ids.getD c ""),
+                       dyn := fun c => dyn.getD c false }
     .obj [("eq", matrix vals fun x y => .bool (eq x y)),
           ("ne", matrix vals fun x y => .bool (ne x y)),
           ("lt", matrix vals fun x y => resToJ (symLt env x y)),
